@@ -421,24 +421,27 @@ def run_c36(pid, tier, replay):
                 selftested = True
 
     # ---- operation sequences --------------------------------------------------------------------
-    ops = dict(maxdiags=3, maxops=7, dist=2, basetag="t", num=400, extras="ExtrasBasic") if thorough else \
-        dict(maxdiags=3, maxops=6, dist=1, basetag="t", num=40, extras="ExtrasFull")
-    casefile = os.path.join(wd, "cases_ops.jsonl")
-    r, n, _ = _tlc_to_file("MCReportOps", "MCReportOps_sim.cfg", OPS_CFG % ops, wd, casefile,
-                           simulate=ops["num"], depth=ops["maxops"] + 1)
-    trans += r.generated
-    mism, st = _drive(binary, "ops", casefile)
-    _feed(verdict, mism, accept=_ACCEPT[pid])
-    ops_cases, ops_steps = st["cases"], st["steps"]
-    bounds.append({"run": "ops", "simulate": ops["num"], "cases": ops_cases, "steps": ops_steps})
+    # (thorough tier only: the quick tier spends its TLC start-ups on the canon, pinned-workspace and
+    # sampled-workspace runs; C37's quick tier runs the operation sequences)
+    ops_cases = ops_steps = 0
+    if thorough:
+        ops = dict(maxdiags=3, maxops=7, dist=2, basetag="t", num=400, extras="ExtrasBasic")
+        casefile = os.path.join(wd, "cases_ops.jsonl")
+        r, n, _ = _tlc_to_file("MCReportOps", "MCReportOps_sim.cfg", OPS_CFG % ops, wd, casefile,
+                               simulate=ops["num"], depth=ops["maxops"] + 1)
+        trans += r.generated
+        mism, st = _drive(binary, "ops", casefile)
+        _feed(verdict, mism, accept=_ACCEPT[pid])
+        ops_cases, ops_steps = st["cases"], st["steps"]
+        bounds.append({"run": "ops", "simulate": ops["num"], "cases": ops_cases, "steps": ops_steps})
 
     # ---- part (i): the real compiler on invalid workspaces, parallelism 1..16, repeated ---------
     if thorough:
         ws_runs = [
             # (name, cfg params, simulate, depth, #acyclic, #cyclic)
             ("pinned", dict(PINNED, rev="FALSE, TRUE"), None, None, 10 ** 6, 0),
-            ("n2", dict(GENERAL, n="2", rev="FALSE, TRUE"), None, None, 450, 80),
-            ("n34", dict(GENERAL, n="3, 4", rev="FALSE, TRUE"), 600, 6, 300, 60),
+            ("n2", dict(GENERAL, n="2", rev="FALSE, TRUE"), None, None, 300, 60),
+            ("n34", dict(GENERAL, n="3, 4", rev="FALSE, TRUE"), 500, 6, 200, 40),
         ]
         pars = ",".join(str(i) for i in range(1, 17))
         holdpars = "2,4,16"
